@@ -37,13 +37,46 @@ def mk(form, path):
     return ("kv", list(path), ("a", [("i", 1)]))
 
 
+def bareable(k):
+    return len(k) > 0 and all(chr(c).isalnum() and c < 128 or c in b"-_" for c in k)
+
+
+def spell(rng, k):
+    """one of the spellings of key k: bare (when possible), basic (escaping what must be escaped), literal (when possible)"""
+    opts = []
+    if bareable(k):
+        opts += ["bare"] * 3
+    opts.append("basic")
+    if b"'" not in k and all(c >= 0x20 and c != 0x7f or c == 9 for c in k):
+        opts.append("literal")
+    o = rng.choice(opts)
+    if o == "bare":
+        return k
+    if o == "literal":
+        return b"'" + k + b"'"
+    esc = b""
+    for c in k:
+        if c == 0x22:
+            esc += b'\\"'
+        elif c == 0x5c:
+            esc += b"\\\\"
+        elif c < 0x20 or c == 0x7f:
+            esc += b"\\u%04X" % c
+        else:
+            esc += bytes([c])
+    return b'"' + esc + b'"'
+
+
+# keys that cannot be written bare: the stored key text and its default spelling differ
+ODD_KEYS = [b"a b", b"", b"a.b", "é".encode(), b"a\"b", b"'", b" ", b"a\tb"]
+
+
 def render(rng, stmts):
     out = []
     for st in stmts:
         keys = []
         for k in st[1]:
-            x = rng.random()
-            keys.append(k if x < 0.6 else (b'"' + k + b'"' if x < 0.8 else b"'" + k + b"'"))
+            keys.append(spell(rng, k))
         p = b".".join(keys)
         if st[0] == "hdr":
             out.append(b"[" + p + b"]")
@@ -90,12 +123,25 @@ def gen_cases(rng, tier):
     for n in range(1, maxn + 1):
         for seq in itertools.product(atoms, repeat=n):
             add(list(seq), "enum%d" % n)
+    # the same enumeration over keys that cannot be written bare (the key's text differs from every spelling of it)
+    odd = [b"a b", b""]
+    opaths = [(x,) for x in odd] + [(x, y) for x in odd for y in odd]
+    oatoms = [mk(f, p) for f in FORMS for p in opaths]
+    for n in range(1, maxn + 1 if tier != "quick" else 3 + 1):
+        if n == 4:
+            break                # 36^4 is done once, on the plain alphabet
+        for seq in itertools.product(oatoms, repeat=n):
+            add(list(seq), "enum-odd%d" % n)
     # random longer sequences
     alpha3 = [b"a", b"b", b"c"]
     n_rand = 12000 if tier == "quick" else 150000
     for _ in range(n_rand):
         n = rng.randrange(4, 9)
         seq = []
+        alpha3 = [b"a", b"b", b"c"]
+        if rng.random() < 0.4:       # some or all keys of this sequence cannot be written bare
+            pool = rng.sample(ODD_KEYS, 3)
+            alpha3 = [pool[i] if rng.random() < 0.7 else alpha3[i] for i in range(3)]
         for _k in range(n):
             plen = rng.choice([1, 1, 2, 2, 3])
             p = tuple(rng.choice(alpha3) for _ in range(plen))
